@@ -31,6 +31,7 @@ import (
 	"github.com/golang/protobuf/ptypes/empty"
 	"github.com/sirupsen/logrus"
 	pb "massnet.org/mass-wallet/api/proto"
+	"github.com/massnetorg/mass-core/wire"
 	"verifharness/internal/rng"
 	"verifharness/internal/sim"
 )
@@ -315,7 +316,34 @@ func runRace(wd *World, scen string, inst, part int) int {
 	if f := req.Elem().FieldByName("LockTime"); f.IsValid() {
 		f.SetUint(0)
 	}
-	rm := wd.g.armRule("asyncRemove", 1, false)
+	// requests that reach the deep paths: spend / estimate from the wallet's own confirmed coins
+	own := wd.coinsOf(A, clsStd, true)
+	switch r := req.Interface().(type) {
+	case *pb.AutoCreateTransactionRequest:
+		r.Amounts = map[string]string{A.addrs[1].std: "0.5"}
+		r.Fee, r.FromAddress, r.ChangeAddress = "", "", ""
+	case *pb.GetTransactionFeeRequest:
+		r.Amounts = map[string]string{A.addrs[1].std: "0.5"}
+		r.Inputs, r.HasBinding = nil, false
+		if inst%2 == 1 && len(own) > 0 {
+			r.Inputs = []*pb.TransactionInput{{TxId: own[0].op.Hash.String(), Vout: own[0].op.Index}}
+		}
+	case *pb.CreateRawTransactionRequest:
+		if len(own) > 0 {
+			r.Inputs = []*pb.TransactionInput{{TxId: own[0].op.Hash.String(), Vout: own[0].op.Index}}
+			r.Amounts = map[string]string{A.addrs[1].std: "0.1"}
+			r.ChangeAddress, r.Subtractfeefrom = "", nil
+		}
+	case *pb.SignRawTransactionRequest:
+		if len(own) > 0 {
+			r.RawTx = txHex(sim.NewTx([]wire.OutPoint{own[0].op}, nil, []sim.Out{{Script: stdScript(A.addrs[1].sh), Value: own[0].val / 2}}, 0, nil))
+			r.Flags = "ALL"
+		}
+	case *pb.TxHistoryRequest:
+		r.Count, r.Address = 5, ""
+	}
+	phase := (inst / (len(raceTargets) * 7)) % 2
+	rm := wd.g.armRule("asyncRemove", phase, false)
 	if err := wd.w.WM.RemoveWallet(A.id, A.pass); err != nil {
 		emit("X\t%s\t%d\t%d\t0\tharness\tRemoveWallet: %s", scen, inst, part, clean(err.Error()))
 		return 0
@@ -323,10 +351,16 @@ func runRace(wd *World, scen string, inst, part int) int {
 	select {
 	case <-rm.hit:
 	case <-time.After(10 * time.Second):
-		emit("X\t%s\t%d\t%d\t0\tharness\tthe removal never reached its second phase", scen, inst, part)
+		emit("X\t%s\t%d\t%d\t0\tharness\tthe removal never reached write transaction %d", scen, inst, part, phase+1)
 		return 0
 	}
-	call := wd.g.armRule("api.(*APIServer)."+target, 0, true)
+	kth := (inst / len(raceTargets)) % 7
+	var call *rule
+	if kth == 0 {
+		call = wd.g.armRule("api.(*APIServer)."+target, 0, true)
+	} else {
+		call = wd.g.armReadEnd("api.(*APIServer)."+target, kth-1)
+	}
 	curCase = "0"
 	resCh := make(chan result, 1)
 	go func() {
@@ -336,16 +370,30 @@ func runRace(wd *World, scen string, inst, part int) int {
 			return errClass(err)
 		})
 	}()
-	sched := "held-at-first-read"
+	sched := fmt.Sprintf("removal-frozen-before-write-%d/held-at-first-read", phase+1)
+	if kth > 0 {
+		sched = fmt.Sprintf("removal-frozen-before-write-%d/held-after-read-%d", phase+1, kth)
+	}
+	if false {
+		sched = fmt.Sprintf("held-after-read-%d", kth)
+	}
 	select {
 	case <-call.hit:
 	case r := <-resCh:
 		// the method answered without reading the database
-		emit("C\t%s\t%d\t%d\t0\t%s\t%s\t%s\t%s\t%s", scen, inst, part, "race:no-read", target, r.class, clean(jsonReq(req.Interface())), clean(r.info))
+		st := "race:no-read"
+		if kth > 0 {
+			st = fmt.Sprintf("race:fewer-than-%d-reads", kth)
+		}
+		emit("C\t%s\t%d\t%d\t0\t%s\t%s\t%s\t%s\t%s", scen, inst, part, st, target, r.class, clean(jsonReq(req.Interface())), clean(r.info))
+		if strings.HasPrefix(r.class, "panic") {
+			return 3
+		}
 		return 0
 	case <-time.After(10 * time.Second):
 		sched = "never-read"
 	}
+	_ = kth
 	wd.g.openRule(rm)
 	for i := 0; i < 5000 && wd.w.WM.CurrentWallet() != ""; i++ {
 		time.Sleep(2 * time.Millisecond)
@@ -510,7 +558,8 @@ func parent(tier, outPath string, workers int) int {
 			continue
 		}
 		if s == "race-remove" {
-			for i := range raceTargets {
+			// instance = target + len(targets) * k: the call is frozen at its first read (k = 0) or at the END of its k-th read
+			for i := 0; i < len(raceTargets)*7*2; i++ {
 				jobs = append(jobs, job{s, i, 1})
 			}
 			continue
